@@ -596,6 +596,7 @@ def run_on(ctx, f, b, wrappers):
             ctx.inst("C03/D4", "%s consumes filtered n %s" % (kind.upper(), want), arms.get(kind) == want, "%s arm intersects the filtered set with: %s" % (kind, arms.get(kind)))
     # REQUIRE / DISALLOW error conditions
     req = dis = False
+    req_weak, dis_weak = [], []
     for (e, tb, fa) in b.all_edge_facts():
         p = as_pred(fa)
         if not p or on_match_arm(e[0]):
@@ -608,12 +609,21 @@ def run_on(ctx, f, b, wrappers):
         # the edge on which the error is raised
         reaches_err = not any(callee_name(b.blocks[x]["term"]) in ("std::collections::BTreeSet::difference",) for x in b.reach_between(tb, removed_blocks=set())
                               if b.blocks[x]["term"] and b.blocks[x]["term"]["k"] == "call" and x in b.reach and False)
+        # ... and it is the whole condition: from that edge every path ends in an error return (a second conjunct such as
+        # `&& !link.contains_key(path)` lets a path that was consumed by an earlier rule satisfy REQUIRE again)
+        fatal = b._is_err_return_path(e[0], tb, set(), e[1], root=True, stop_at_next=False)
         if arm == "Require" and last == "contains" and p[2] is False:
-            req = True
+            req = req or fatal
+            if not fatal:
+                req_weak.append(b.at(e[0]))
         if arm == "Disallow" and last == "is_empty" and p[2] is False:
-            dis = True
-    ctx.inst("C03/D4", "REQUIRE fails when the path is not in the queue", req, "Require arm branches on queue.contains(path) == false: %s" % req)
-    ctx.inst("C03/D4", "DISALLOW fails when an artifact matches", dis, "Disallow arm branches on filtered.is_empty() == false: %s" % dis)
+            dis = dis or fatal
+            if not fatal:
+                dis_weak.append(b.at(e[0]))
+    ctx.inst("C03/D4", "REQUIRE fails when the path is not in the queue", req and not req_weak,
+             "Require arm branches on queue.contains(path) == false and every path from that edge is an error return: %s%s" % (req, (" - not fatal at %s" % req_weak) if req_weak else ""))
+    ctx.inst("C03/D4", "DISALLOW fails when an artifact matches", dis and not dis_weak,
+             "Disallow arm branches on filtered.is_empty() == false and every path from that edge is an error return: %s%s" % (dis, (" - not fatal at %s" % dis_weak) if dis_weak else ""))
     # queue update inside the per-rule loop
     qok = False
     if queue_update:
